@@ -3,7 +3,7 @@ from .common import *
 
 RULE = ("sign with callback outcome {accept, reject} x key states (first, middle, radix boundaries, last, wiped, beyond) x failing preconditions "
         "(wrong length, bad parameter byte) x {no aux, fresh aux, filled aux, corrupted aux}; oracle on the library's answers: ok => exactly one "
-        "callback with the complete successor key and accept; err => no callback, or one rejected callback; never more than one")
+        "callback with the complete successor key and accept; err => no callback, or one rejected callback; never more than one; keys of 35 and 40 bits total height (7 and 8 levels of H5) at their boundary and last states")
 ASSUMPTIONS = ["the order of effects inside one call is observed through the callback trace only"]
 
 
@@ -24,7 +24,12 @@ def run(ctx):
     if not ctx.open():
         return
     rng = ctx.rng
-    keys = make_keys(ctx, spec_list(rng, ctx.tier, 8 if ctx.tier == "quick" else 24, max_levels=4), proj_class)
+    specs = spec_list(rng, ctx.tier, 8 if ctx.tier == "quick" else 24, max_levels=4)
+    # keys whose total height lies in 32..63 bits (counter arithmetic beyond 32 bits), affordable because every tree is an H5 tree
+    specs += [("S16", [(3, 5)] * 7, rng.bytes_(16)), ("K16", [(2, 5)] * 8, rng.bytes_(16))]
+    if ctx.tier == "thorough":
+        specs += [("S24", [(3, 5), (2, 5), (3, 5), (3, 5), (2, 5), (3, 5), (3, 5)], rng.bytes_(24)), ("S32", [(4, 5)] * 7, rng.bytes_(32))]
+    keys = make_keys(ctx, specs, proj_class)
     fills = [Case(keygen_line(k.H, k.params, k.seed, bytes(1200)), "keygen/aux", {"key": k}) for k in keys]
     auxof = {}
     for c, a, b in ctx.both(fills, proj_class):
